@@ -145,10 +145,39 @@ class Tracer:
         self.mounts_real = set(self.sb.to_real(m) for m in world.get("mounts", [])) | {sb.rootb, b"/"}
         self.budget = plan.get("budget", 20000)
         self.orig = {}
+        self.internal = 0          # >0 while the harness itself uses os.* (never counted, never faulted)
+        self.reads = 0             # stat-class calls issued by the code under test
+        self.on_crash = None
 
     # -- helpers ---------------------------------------------------------------------------------
     def canon(self, path, dir_fd=None):
         """canonical real path of the entry `path` names (parent resolved, last component kept)"""
+        self.internal += 1
+        try:
+            return self._canon(path, dir_fd)
+        finally:
+            self.internal -= 1
+
+    def full(self, path):
+        self.internal += 1
+        try:
+            return os.path.realpath(os.fsencode(path))
+        finally:
+            self.internal -= 1
+
+    def read_point(self, kind, path):
+        """a stat-class call of the code under test: a fault point (and yield point), not traced"""
+        if self.internal:
+            return
+        k = self.reads
+        self.reads += 1
+        if self.reads > self.budget * 20:
+            raise Crash("budget")
+        for f in self.plan.get("read_faults", []):
+            if f.get("index") == k or (f.get("kind") == kind and f.get("persistent")):
+                raise OSError(getattr(errno_mod, f["errno"]), os.strerror(getattr(errno_mod, f["errno"])), path)
+
+    def _canon(self, path, dir_fd=None):
         p = os.fsencode(path)
         if dir_fd is not None and not p.startswith(b"/"):
             base = os.fsencode(os.readlink("/proc/self/fd/%d" % dir_fd))
@@ -184,8 +213,14 @@ class Tracer:
         k = self.kind_count.get(op, 0)
         self.kind_count[op] = k + 1
         if self.plan.get("states"):
-            self.states.append(self.sb.snapshot())
+            self.internal += 1
+            try:
+                self.states.append(self.sb.snapshot())
+            finally:
+                self.internal -= 1
         if self.plan.get("crash_at") == idx:
+            if self.on_crash is not None:
+                self.on_crash()          # reports and _exit()s: a raised exception could be swallowed by a bare except
             raise Crash("crash")
         e = None
         for f in self.plan.get("faults", []):
@@ -226,14 +261,19 @@ class Tracer:
         def rename(src, dst, *, src_dir_fd=None, dst_dir_fd=None):
             a, c = t.canon(src, src_dir_fd), t.canon(dst, dst_dir_fd)
             rec = t.before("rename", [a, c])
-            if os.path.lexists(a):
+            t.internal += 1
+            try:
+                exists_a, exists_c = os.path.lexists(a), os.path.lexists(c)
+            finally:
+                t.internal -= 1
+            if exists_a:
                 if a in t.mounts_real:
                     rec[2] = "EBUSY"
                     raise OSError(errno_mod.EBUSY, "Device or resource busy (virtual mount point)", src)
                 if t.dev(os.path.dirname(a)) != t.dev(os.path.dirname(c)):
                     rec[2] = "EXDEV"
                     raise OSError(errno_mod.EXDEV, "Invalid cross-device link (virtual)", src)
-                if c in t.mounts_real and os.path.lexists(c):
+                if c in t.mounts_real and exists_c:
                     rec[2] = "EBUSY"
                     raise OSError(errno_mod.EBUSY, "Device or resource busy (virtual mount point)", dst)
             return t.run_real(rec, o["rename"], src, dst, src_dir_fd=src_dir_fd, dst_dir_fd=dst_dir_fd)
@@ -246,7 +286,12 @@ class Tracer:
         def rmdir(path, *, dir_fd=None):
             c = t.canon(path, dir_fd)
             rec = t.before("rmdir", [c])
-            if c in t.mounts_real and os.path.isdir(c) and not os.path.islink(c):
+            t.internal += 1
+            try:
+                is_real_dir = os.path.isdir(c) and not os.path.islink(c)
+            finally:
+                t.internal -= 1
+            if c in t.mounts_real and is_real_dir:
                 rec[2] = "EBUSY"
                 raise OSError(errno_mod.EBUSY, "Device or resource busy (virtual mount point)", path)
             return t.run_real(rec, o["rmdir"], path, dir_fd=dir_fd)
@@ -258,7 +303,7 @@ class Tracer:
 
         def os_open(path, flags, mode=0o777, *, dir_fd=None):
             if flags & (os.O_WRONLY | os.O_RDWR | os.O_CREAT | os.O_TRUNC | os.O_APPEND):
-                c = os.path.realpath(os.fsencode(path)) if not (flags & os.O_EXCL) and not (flags & os.O_NOFOLLOW) \
+                c = t.full(path) if not (flags & os.O_EXCL) and not (flags & os.O_NOFOLLOW) \
                     else t.canon(path, dir_fd)
                 op = "createExcl" if flags & os.O_EXCL else ("createTrunc" if flags & (os.O_CREAT | os.O_TRUNC) else "openw")
                 rec = t.before(op, [c], [mode])
@@ -289,12 +334,12 @@ class Tracer:
             return o["sendfile"](out_fd, in_fd, offset, count)
 
         def chmod(path, mode, *, dir_fd=None, follow_symlinks=True):
-            c = os.path.realpath(os.fsencode(path)) if follow_symlinks else t.canon(path, dir_fd)
+            c = t.full(path) if follow_symlinks else t.canon(path, dir_fd)
             rec = t.before("chmod", [c], [mode])
             return t.run_real(rec, o["chmod"], path, mode, dir_fd=dir_fd, follow_symlinks=follow_symlinks)
 
         def utime(path, times=None, *, ns=None, dir_fd=None, follow_symlinks=True):
-            c = os.path.realpath(os.fsencode(path)) if follow_symlinks else t.canon(path, dir_fd)
+            c = t.full(path) if follow_symlinks else t.canon(path, dir_fd)
             rec = t.before("utime", [c])
             kw = {"dir_fd": dir_fd, "follow_symlinks": follow_symlinks}
             if ns is not None:
@@ -308,7 +353,7 @@ class Tracer:
             return t.run_real(rec, o["link"], src, dst, **kw)
 
         def truncate(path, length):
-            c = os.path.realpath(os.fsencode(path)) if not isinstance(path, int) else t.fds.get(path, b"?")
+            c = t.full(path) if not isinstance(path, int) else t.fds.get(path, b"?")
             rec = t.before("truncate", [c])
             return t.run_real(rec, o["truncate"], path, length)
 
@@ -318,7 +363,7 @@ class Tracer:
         def bopen(file, mode="r", *a, **kw):
             if isinstance(file, int) or not any(ch in mode for ch in "wax+"):
                 return o["bopen"](file, mode, *a, **kw)
-            c = os.path.realpath(os.fsencode(file))
+            c = t.full(file)
             rec = t.before("createExcl" if "x" in mode else ("createTrunc" if "w" in mode else "openw"), [c], [0o666])
             f = t.run_real(rec, o["bopen"], file, mode, *a, **kw)
             try:
@@ -328,15 +373,35 @@ class Tracer:
             return f
 
         def ismount(path):
+            t.read_point("stat", path)
+            t.internal += 1
             try:
-                st = os.lstat(path)
-            except (OSError, ValueError):
-                return False
-            if stat.S_ISLNK(st.st_mode):
-                return False
-            return os.path.realpath(os.fsencode(path)) in t.mounts_real
+                try:
+                    st = os.lstat(path)
+                except (OSError, ValueError):
+                    return False
+                if stat.S_ISLNK(st.st_mode):
+                    return False
+                return os.path.realpath(os.fsencode(path)) in t.mounts_real
+            finally:
+                t.internal -= 1
+
+        for name in ("stat", "lstat", "access", "readlink"):
+            o[name] = getattr(os, name)
+
+        def mk_read(name):
+            orig = o[name]
+
+            def wrapper(path, *a, **kw):
+                if not isinstance(path, int):
+                    t.read_point(name, path)
+                return orig(path, *a, **kw)
+            return wrapper
+        os.stat, os.lstat, os.access, os.readlink = mk_read("stat"), mk_read("lstat"), mk_read("access"), mk_read("readlink")
 
         def listdir(path="."):
+            if not isinstance(path, int):
+                t.read_point("listdir", path)
             r = o["listdir"](path)
             return sorted(r, key=os.fsencode)
 
@@ -417,6 +482,20 @@ def child_main(sb, world, plan, wfd):
         for h in logging.getLogger("trashcli.trash").handlers:
             if hasattr(h, "setStream"):
                 h.setStream(sys.stderr)
+        def on_crash():
+            result["exit"] = "crash"
+            result["stdout"] = out_b.getvalue().hex()
+            result["stderr"] = err_b.getvalue().hex()
+            result["trace"] = tracer.trace
+            result["escapes"] = tracer.escapes
+            result["states"] = []
+            data = json.dumps(result).encode()
+            w = tracer.orig.get("write", os.write)
+            off = 0
+            while off < len(data):
+                off += w(wfd, data[off:off + 65536])
+            os._exit(0)
+        tracer.on_crash = on_crash
         tracer.install()
         t0 = time.time()
         try:
@@ -432,6 +511,7 @@ def child_main(sb, world, plan, wfd):
             sys.stderr.write("Traceback (most recent call last):\n%s: %s\n" % (type(e).__name__, e))
             result["tb"] = traceback.format_exc()[-1500:]
         result["t0"], result["t1"] = t0, time.time()
+        tracer.internal += 1
         if plan and plan.get("states"):
             tracer.states.append(sb.snapshot())
         result["stdout"] = out_b.getvalue().hex()
@@ -440,6 +520,7 @@ def child_main(sb, world, plan, wfd):
         result["machinery"] = "%s: %s\n%s" % (type(e).__name__, e, traceback.format_exc()[-2000:])
     result["trace"] = tracer.trace
     result["escapes"] = tracer.escapes
+    result["reads"] = tracer.reads
     result["states"] = [[[p.hex(), k, d.hex(), m, t, g.hex()] for (p, k, d, m, t, g) in s] for s in tracer.states]
     data = json.dumps(result).encode()
     w = tracer.orig.get("write", os.write)
@@ -491,7 +572,7 @@ def run_world(world, plan=None, keep=None, facts=None):
             "before": before, "after": after,
             "states": [[(bytes.fromhex(p), k, bytes.fromhex(d), m, t, bytes.fromhex(g)) for (p, k, d, m, t, g) in s]
                        for s in res["states"]],
-            "t0": res.get("t0"), "t1": res.get("t1"), "facts": fact_values,
+            "t0": res.get("t0"), "t1": res.get("t1"), "facts": fact_values, "reads": res.get("reads", 0),
         }
         if res["escapes"]:
             obs["escaped"] = True
